@@ -113,11 +113,28 @@ func (w *World) CheckLifecycle(out *Outcome, o *Obs) []Violation {
 		}
 		return m
 	}
+	// (a request that was refused without running the factory - the name is in creation - is no
+	// attempt)
 	failedAttempt := map[string]bool{}
+	ranFactory := map[string][]bool{}
 	for _, c := range o.Reg {
-		if c.Op == "goc-exit" && c.Err && (o.EndOfRun <= 0 || c.Seq <= o.EndOfRun) {
-			if id := w.instByName(c.Name); id != "" {
-				failedAttempt[id] = true
+		switch c.Op {
+		case "goc-enter":
+			ranFactory[c.Name] = append(ranFactory[c.Name], false)
+		case "fac":
+			if n := len(ranFactory[c.Name]); n != 0 {
+				ranFactory[c.Name][n-1] = true
+			}
+		case "goc-exit":
+			ran := true
+			if n := len(ranFactory[c.Name]); n != 0 {
+				ran = ranFactory[c.Name][n-1]
+				ranFactory[c.Name] = ranFactory[c.Name][:n-1]
+			}
+			if ran && c.Err && (o.EndOfRun <= 0 || c.Seq <= o.EndOfRun) {
+				if id := w.instByName(c.Name); id != "" {
+					failedAttempt[id] = true
+				}
 			}
 		}
 	}
@@ -704,9 +721,9 @@ func (w *World) CheckCleanFailure(out *Outcome, o *Obs) []Violation {
 		open := map[string]int{}
 		for _, e := range evs {
 			switch e.Kind {
-			case "init-lookup":
+			case "init-lookup", "proc-lookup":
 				open[e.Subj+">"+e.Detail] = e.Seq
-			case "init-lookup-tolerated":
+			case "init-lookup-tolerated", "proc-lookup-tolerated":
 				tolerated = append(tolerated, span{open[e.Subj+">"+e.Detail], e.Seq})
 			}
 		}
